@@ -21,7 +21,7 @@ RULE = (
 )
 ASSUMPTIONS = [
     "the frozen golden list /verif/golden/vocab.json (sha256 pinned) is the published layout: 'a token's id never changes' is a regression claim",
-    "'unknown id' means an integer >= len(vocabulary); negative ids (Python indexing) are not asserted on",
+    "'unknown id' means an integer >= len(vocabulary) or < -len(vocabulary); ids in [-len, -1] resolve through Python's from-the-end indexing and are not asserted on",
 ]
 
 GOLDEN_SHA = "748c8e615684069cd77747e4cd5f800e59e9c13a543f68ae9a7e2f5c39991aa9"
@@ -204,9 +204,12 @@ def check_unknown(case: dict):
         except Exception as ex:  # noqa: BLE001
             raise Violation(f"C14:{nm}:unknown-token-raises:{type(ex).__name__}", f"token {tok!r}: {type(ex).__name__} instead of TokenError")
         raise Violation(f"C14:{nm}:unknown-token-accepted", f"encode({tok!r}) returned {res}")
-    idx = len(arr) + case["over"]
+    # ids at or beyond the end of the vocabulary, and ids so negative that not even Python's from-the-end indexing can resolve them
+    idx = len(arr) + case["over"] if "over" in case else -len(arr) - 1 - case["under"]
+    known = [i % len(arr) for i in case.get("prefix_ids", [])]
+    cut = case.get("at", len(known)) % (len(known) + 1)
     try:
-        res = t.decode([i % len(arr) for i in case.get("prefix_ids", [])] + [idx])
+        res = t.decode(known[:cut] + [idx] + known[cut:])
     except TokenError:
         return {"nt": True, "labels": [nm, "unknown-id"]}
     except Exception as ex:  # noqa: BLE001
@@ -266,7 +269,11 @@ def _unknown(draw):
     if draw(st.booleans()):
         case["token"] = draw(st.sampled_from(NEAR_MISSES) | st.text(alphabet=st.characters(min_codepoint=33, max_codepoint=126), min_size=1, max_size=8))
     else:
-        case["over"] = draw(st.sampled_from([0, 1, 2, 100, 10**6]) | st.integers(0, 5000))
+        if draw(st.integers(0, 2)) == 0:
+            case["under"] = draw(st.sampled_from([0, 1, 2, 100, 4096, 10**6]) | st.integers(0, 5000))
+        else:
+            case["over"] = draw(st.sampled_from([0, 1, 2, 100, 10**6]) | st.integers(0, 5000))
+        case["at"] = draw(st.integers(0, 4))
     return case
 
 
